@@ -5,7 +5,8 @@ from fractions import Fraction as F
 from inst import fmt, PREFIX
 from model import rat
 
-NAMES = {"M": "M", "mM": "mM", "uM": "uM", "m": "m", "pww": "%w/w", "pvv": "%v/v", "pwv": "%w/v"}
+NAMES = {"M": "M", "mM": "mM", "uM": "uM", "nM": "nM", "kM": "kM", "MM": "MM", "m": "m", "mm": "mm", "um": "um", "km": "km",
+         "pww": "%w/w", "pvv": "%v/v", "pwv": "%w/v"}
 
 
 def sci(j):
